@@ -608,14 +608,34 @@ func checkC16(p *Prog, res *Result, tier string) {
 					}
 					n++
 					construct := fmt.Sprintf("%s: failed-condition answer without a key-value #%d", funcName(f), n)
+					isKvStore := func(i ssa.Instruction) bool {
+						st, ok := i.(*ssa.Store)
+						if !ok {
+							return false
+						}
+						fa, ok := st.Addr.(*ssa.FieldAddr)
+						return ok && fieldOf(fa).Name() == "Kv" && !isNilConst(resolve(st.Val))
+					}
+					// a helper of the package that fills in the key-value on every one of its paths
+					fillsAlways := func(h *ssa.Function) bool {
+						if h == nil || h.Blocks == nil || h.Pkg != bp {
+							return false
+						}
+						miss, _ := searchFrom(h.Blocks[0], 0, searchOpts{
+							stop: isKvStore,
+							bad:  func(i ssa.Instruction) bool { _, ok := i.(*ssa.Return); return ok },
+						})
+						return miss == nil
+					}
 					hit, _ := searchFrom(b.Succs[0], 0, searchOpts{
 						stop: func(i ssa.Instruction) bool {
-							st, ok := i.(*ssa.Store)
-							if !ok {
-								return false
+							if isKvStore(i) {
+								return true
 							}
-							fa, ok := st.Addr.(*ssa.FieldAddr)
-							return ok && fieldOf(fa).Name() == "Kv" && !isNilConst(resolve(st.Val))
+							if c, ok := i.(*ssa.Call); ok && fillsAlways(c.Common().StaticCallee()) {
+								return true
+							}
+							return false
 						},
 						bad: func(i ssa.Instruction) bool {
 							ret, ok := i.(*ssa.Return)
